@@ -26,9 +26,10 @@ type Scenario struct {
 	Backend    string              `json:"backend,omitempty"` // mem | leveldb
 	NoProj     bool                `json:"noProj,omitempty"`  // no state projection, only responses, hashes and digests
 	Family     string              `json:"family,omitempty"`
-	Twin       bool                `json:"twin,omitempty"`       // run an ideal node (never restarted, never crashed) in lockstep and log both
-	Lean       bool                `json:"lean,omitempty"`       // log digests instead of full states (long histories)
-	Snap       int                 `json:"snap,omitempty"`       // attach a state-sync snapshot store taking a snapshot every `snap` blocks
+	Twin       bool                `json:"twin,omitempty"` // run an ideal node (never restarted, never crashed) in lockstep and log both
+	Lean       bool                `json:"lean,omitempty"` // log digests instead of full states (long histories)
+	Snap       int                 `json:"snap,omitempty"` // attach a state-sync snapshot store taking a snapshot every `snap` blocks
+	DebugIdeal bool                `json:"debugIdeal,omitempty"`
 	KeepStates int64               `json:"keepStates,omitempty"` // override of the world's number of kept state versions
 	Readers    int                 `json:"readers,omitempty"`    // C25: number of goroutines serving queries against node A while it executes
 	Schedule   map[string][]string `json:"schedule,omitempty"`   // C25: ABCI phase (begin|deliver|end|commit|between) -> query kinds that may overlap it
@@ -151,6 +152,7 @@ type Rec struct {
 	Fault      string      `json:"fault,omitempty"` // crash: label of the last write that reached the disk
 	RT         *RoundTrip  `json:"rt,omitempty"`    // export/import: the exported state of the original chain (normalised digests)
 	RT2        *RoundTrip  `json:"rt2,omitempty"`
+	IdealSt    *Abs        `json:"idealSt,omitempty"`    // debugging aid: the reference twin's full projection (scenario flag debugIdeal)
 	QueryPanic string      `json:"queryPanic,omitempty"` // C25: panics recovered in reader goroutines during this call   // export/import: the export of the new chain right after InitChain
 }
 
@@ -293,6 +295,9 @@ func (c *runCtx) proj(rec *Rec, h uint64) {
 		res := guard(func() { a = ProjectMem(c.id, c.iu, h) })
 		if res.Panic == "" {
 			rec.Ideal.StD = c.stD(a, rec.Kind)
+			if c.sc.DebugIdeal {
+				rec.IdealSt = a
+			}
 			if c.imported {
 				rec.Ideal.StF = roundTripOf(a, c.folded).Fields
 			}
